@@ -1,4 +1,5 @@
 import EmmyVerif.Lemmas.LspShape
+import EmmyVerif.Lemmas.LspShapeTree
 import EmmyVerif.Gen.ProtoLegend
 /-!
 # C26 — LSP results are structurally valid (partial)
@@ -67,6 +68,78 @@ theorem C26_selection_keeps_strict_chain (rs : List Range) (h : chainStrict rs =
   | nil => rfl
   | cons a rest => simp only [grow]; rw [growFrom_id a rest h]
 
+/-! ### producers that take their ranges from syntax nodes (`RangeTree`) -/
+
+/-- in a well-nested tree an ancestor's range contains every descendant's range -/
+theorem C26_tree_ancestor_contains (t : RangeTree) (h : wellNested t = true) (k i : Nat)
+    (ha : Anc t k i) (a b : Node) (hk : t[k]? = some a) (hi : t[i]? = some b) :
+    within b.range a.range := anc_within t h k i ha a b hk hi
+
+/-- **C26 symbol nesting.** A child symbol's range — the range of a node, or the cover of several node
+ranges — lies inside its parent symbol's range, for every well-nested tree, whenever the producer keeps its
+discipline: the child's nodes lie at or below the parent's *host* node, and the parent's range covers its
+host. (Which nodes a producer picks is not modelled; the discipline is what `stats.rs`/`expr.rs` implement.) -/
+theorem C26_symbol_nesting (t : RangeTree) (h : wellNested t = true)
+    (host : Nat) (hostN : Node) (hh : t[host]? = some hostN)
+    (parentRange : Nat × Nat) (hp : within hostN.range parentRange)
+    (a0 : Node) (as : List Node)
+    (hanc : ∀ a ∈ a0 :: as, ∃ i, t[i]? = some a ∧ Anc t host i) :
+    within (hull a0.range (as.map Node.range)) parentRange := by
+  have sub : ∀ a ∈ a0 :: as, within a.range parentRange := by
+    intro a ha
+    obtain ⟨i, hi, hanc'⟩ := hanc a ha
+    have := anc_within t h host i hanc' hostN a hh hi
+    simp only [within] at this hp ⊢
+    omega
+  apply hull_within
+  · exact sub a0 (by simp)
+  · intro x hx
+    obtain ⟨a, ha, rfl⟩ := List.mem_map.mp hx
+    exact sub a (List.mem_cons_of_mem _ ha)
+
+/-- **C26 selection range inside range.** A selection range taken from a node at or below one of the nodes
+the symbol's range covers lies inside that range. -/
+theorem C26_symbol_selection_in_range (t : RangeTree) (h : wellNested t = true)
+    (a0 : Node) (as : List Node) (anchor : Node) (k : Nat) (hk : t[k]? = some anchor)
+    (hmem : anchor ∈ a0 :: as) (sel : Node) (i : Nat) (hi : t[i]? = some sel) (ha : Anc t k i) :
+    within sel.range (hull a0.range (as.map Node.range)) := by
+  have h1 := anc_within t h k i ha anchor sel hk hi
+  have h2 : within anchor.range (hull a0.range (as.map Node.range)) := by
+    rcases List.mem_cons.mp hmem with e | e
+    · subst e; exact hull_contains_first _ _
+    · exact hull_contains_mem _ _ _ (List.mem_map.mpr ⟨anchor, e, rfl⟩)
+  simp only [within] at h1 h2 ⊢
+  omega
+
+/-- **C26 fold start ≤ end.** For any two offsets `a ≤ b` (a node's start and end; the token before a block
+and the token after it; a region's start and end) and any line table, the folding range
+`get_folding_lsp_range` produces starts no later than it ends and ends no later than `b`'s line. -/
+theorem C26_fold_start_le_end (starts : List Nat) (intellij : Bool) (a b x y : Nat) (hab : a ≤ b)
+    (hf : foldLines intellij (lineOf starts a) (lineOf starts b) = some (x, y)) :
+    x ≤ y ∧ y ≤ lineOf starts b := by
+  have hm := lineOf_mono starts a b hab
+  unfold foldLines at hf
+  split at hf
+  · cases hf
+  · split at hf
+    · cases hf; exact ⟨hm, Nat.le_refl _⟩
+    · split at hf
+      · cases hf
+      · split at hf
+        · cases hf
+        · cases hf; omega
+
+/-- region and import folds use the two lines as they are -/
+theorem C26_fold_plain_start_le_end (starts : List Nat) (a b : Nat) (hab : a ≤ b) :
+    (foldPlain (lineOf starts a) (lineOf starts b)).1 ≤ (foldPlain (lineOf starts a) (lineOf starts b)).2 :=
+  lineOf_mono starts a b hab
+
+/-- every node of a well-nested tree folds to start ≤ end -/
+theorem C26_node_fold_ok (t : RangeTree) (h : wellNested t = true) (starts : List Nat) (intellij : Bool)
+    (i : Nat) (n : Node) (hi : t[i]? = some n) (x y : Nat)
+    (hf : foldLines intellij (lineOf starts n.s) (lineOf starts n.e) = some (x, y)) : x ≤ y :=
+  (C26_fold_start_le_end starts intellij n.s n.e x y (node_s_le_e t h i n hi) hf).1
+
 /-- **C26 legend in range.** Every token type index `to_u32` can produce is inside the advertised legend
 and names the same type as `to_semantic_token_type`; every modifier bit is the bit of its legend slot
 (tables re-extracted from the source on every run). -/
@@ -93,5 +166,16 @@ example : chainNested [⟨(0, 0), (0, 3)⟩, ⟨(0, 0), (0, 3)⟩, ⟨(0, 0), (1
     grow [⟨(0, 0), (0, 3)⟩, ⟨(0, 0), (0, 3)⟩, ⟨(0, 0), (1, 0)⟩] = [⟨(0, 0), (0, 3)⟩, ⟨(0, 0), (1, 0)⟩] := by decide
 -- two overlapping markup items of a description (found on the tree): not child and parent
 example : grow [⟨(2, 24), (2, 27)⟩, ⟨(2, 16), (2, 26)⟩, ⟨(2, 2), (2, 33)⟩] = [⟨(2, 24), (2, 27)⟩, ⟨(2, 2), (2, 33)⟩] := by decide
+
+-- a small tree: chunk ⊇ local stat ⊇ (name, closure ⊇ inner stat)
+private def tr : RangeTree := [⟨0, 40, none⟩, ⟨0, 39, some 0⟩, ⟨6, 7, some 1⟩, ⟨13, 39, some 1⟩, ⟨25, 36, some 3⟩]
+example : wellNested tr = true := by decide
+example : wellNested [⟨0, 10, none⟩, ⟨5, 12, some 0⟩] = false := by decide
+example : hull (6, 7) [(13, 39)] = (6, 39) := by decide
+example : foldLines false (lineOf [0, 10, 20, 30] 3) (lineOf [0, 10, 20, 30] 35) = some (0, 2) := by decide
+example : foldLines false (lineOf [0, 10, 20, 30] 3) (lineOf [0, 10, 20, 30] 12) = none := by decide
+example : symbolsOK [(⟨(0, 0), (3, 0)⟩, ⟨(0, 6), (0, 7)⟩, none), (⟨(0, 13), (2, 3)⟩, ⟨(0, 13), (0, 21)⟩, some 0)] = true := by decide
+-- the shape found on the tree: a child outside a parent whose range was only the name
+example : symbolsOK [(⟨(0, 6), (0, 7)⟩, ⟨(0, 6), (0, 7)⟩, none), (⟨(0, 13), (0, 40)⟩, ⟨(0, 13), (0, 40)⟩, some 0)] = false := by decide
 
 end LspShape
